@@ -115,6 +115,16 @@ def item (st : DState) (seq : Bool) (it : String) : Option DState :=
     | some v =>
       let t := Thread.start ⟨.deanon, x, ty, v⟩ (fun _ _ => 0)
       pure (spawn st seq { th := some t, text := true, ty })
+  -- plant a record under the id the tokenizer looks up (damaged store / record of another type)
+  | ["P", which, cid, ac, ty, key, rty, data] => do
+    let x ← ctxOf cid ac; let ty ← tyOf ty; let key ← ofHex key; let data ← ofHex data
+    let (k, payload) ← match which with
+      | "h" => some (hKey C x ty key, data)
+      | "t" => do let rty ← tyOf rty; some (tKey C x ty key, encTV rty data)
+      | _ => none
+    -- the encrypting wrapper cannot store an empty payload; an occupied id keeps its record
+    if st.enc && payload.isEmpty then pure st
+    else pure { st with store := (st.store.save k payload).getD st.store }
   | ["M", action, sel] => do
     let act ← actOf action sel
     pure { st with store := st.store.visit act, events := st.events.push "V" }
